@@ -521,11 +521,12 @@ func (f *fixNav) MoveTo(o xpath.NodeNavigator) bool {
 }
 
 type exprCase struct {
-	Kind   string `json:"kind"` // "expr"
-	Doc    string `json:"doc"`
-	Expr   string `json:"expr"`
-	Start  []int  `json:"start"`
-	Scalar bool   `json:"scalar,omitempty"`
+	Kind   string       `json:"kind"` // "expr"
+	Doc    string       `json:"doc"`
+	Expr   string       `json:"expr"`
+	Start  []int        `json:"start"`
+	Scalar bool         `json:"scalar,omitempty"`
+	Pool   *poolPrelude `json:"earlier_document,omitempty"`
 }
 
 type hit struct {
@@ -560,8 +561,9 @@ func guarded(f func()) (err string) {
 	select {
 	case e := <-done:
 		return e
-	case <-time.After(20 * time.Second):
-		return "hang (no result after 20s)"
+	case <-time.After(10 * time.Second):
+		hung++
+		return "hang (no result after 10s)"
 	}
 }
 
